@@ -18,7 +18,7 @@ def run(c):
     if c.replay:
         c.drive(drv, ["guard", "replay", c.replay, t])
     else:
-        c.drive(drv, ["guard", "limits", c.seed + 31, c.pick(150, 3000), t, "steps=50"])
+        c.drive(drv, ["guard", "limits", c.seed + 31, c.pick(300, 4000), t, "steps=50"])
     ok, total = c.tlc_trace("TraceGuards", t, timeout=c.pick(600, 3000))
     distinct = set()
     cur, denied = None, False
